@@ -218,7 +218,8 @@ def run(ck):
         miso = pg.ModelIsotherm(model=make(pg, name, par), material="pgv_mat", adsorbate="pgv_stub", temperature=77.0,
                                 pressure_mode=lab[0], pressure_unit=lab[1], loading_basis=lab[2], loading_unit=lab[3],
                                 material_basis=lab[4], material_unit=lab[5], temperature_unit="K")
-        pn = 0.37
+        # a pressure of moderate coverage: near saturation pressure(loading) amplifies the last bit of the unit conversions without bound
+        pn = 0.37 / max([1.0] + [v for k_, v in par.items() if k_.startswith("K")])
         bare = float(miso.model.loading(np.float64(pn)))
         qf = float(c03.expected_pressure(w.props, lab, rq_p, pn))
         sig = {"clause": "model-isotherm-wraps", "model": name, "stored": [str(x) for x in lab[:6]], "requested": [str(x) for x in rq_p + rq_l + rq_m]}
